@@ -157,3 +157,11 @@ Definition settle (limit : nat) (s : st) : st :=
   match fin s with Some _ => s | None => if at_limit limit s then finish RLength s else s end.
 
 Definition output (s : st) : str := concat (out s).
+
+(** the text of the pieces before the first EOS: what the model generates when nothing stops it earlier *)
+Fixpoint gen_text (ts : list tok) : str :=
+  match ts with
+  | [] => []
+  | EOS :: _ => []
+  | Piece p :: r => p ++ gen_text r
+  end.
